@@ -178,6 +178,33 @@ def run(ctx):
                 ctx.violation(what="test window given as NumPy integer scalars", window=(repr(T(s0)), repr(T(es0)), repr(T(n0))), observed=str(got)[:300],
                               required=str(want)[:300])
                 break
+    # ---- windows given as other accepted integer kinds (bool, int subclass, __index__ object): same answer as for the plain ints ------
+    import enum
+
+    class _E(enum.IntEnum):
+        ZERO = 0
+        ONE = 1
+        TWO = 2
+
+    class _Ix:
+        def __init__(self, v): self.v = v
+        def __index__(self): return self.v
+        def __repr__(self): return f"Ix({self.v})"
+    kinds = (("bool", lambda v: bool(v) if v in (0, 1) else None), ("IntEnum", lambda v: _E(v) if v in (0, 1, 2) else None), ("__index__", _Ix))
+    for s0, es0, n0 in ((1, 0, 1), (0, 1, 1), (1, 1, 1), (1, 0, 2), (0, 1, 2), (1, 1, 0), (2, 1, 1), (1, 2, 2), (0, 0, 1)):
+        want = expected(big_a, big_e, 1, 1, s0, es0, n0)
+        for kname, K in kinds:
+            for which in ("start", "expected_start", "count", "all"):
+                vals = [K(v) if which in (w_, "all") else v for v, w_ in ((s0, "start"), (es0, "expected_start"), (n0, "count"))]
+                if any(v is None for v in vals):
+                    continue
+                o = outcome(lambda: wa_big.test(we_big, start_sample=vals[0], expected_start_sample=vals[1], sample_count=vals[2]))
+                got = ("ok", [(int(f.sample_index), int(f.expected_sample_index), int(f.signal_index), int(f.actual_state), int(f.expected_state)) for f in o[1].failures]) if o[0] == "ok" else ("err", o[1])
+                ctx.case(("intlike-window", s0, es0, n0, kname, which))
+                ctx.count("window", "integer-like " + kname)
+                if got != want:
+                    ctx.violation(what="test window given as an accepted integer kind differs from the same window given as plain ints", window=[repr(v) for v in vals],
+                                  kind=kname, observed=str(got)[:300], required=str(want)[:300])
     # ---- long windows (tens of thousands of samples, not multiples of anything): every failure is reported at its own sample ------
     for case in range(3 if ctx.quick else 20):
         nsamp = rng.choice([70000, 65537, 131073, 150001] if not ctx.quick else [70000, 65537 + rng.randint(0, 3000)])
